@@ -141,11 +141,11 @@ func c16RunCKKS(ctx *core.RunCtx) {
 		}
 		switch ch.Weighted("protocol", w) {
 		case 0:
-			okk = d.runKeySwitch(ct, false)
+			okk = d.runKeySwitch(d.maybeCoeffDomain(ct), false)
 		case 1:
-			okk = d.runKeySwitch(ct, true)
+			okk = d.runKeySwitch(d.maybeCoeffDomain(ct), true)
 		case 2:
-			okk = d.runPublicKeySwitch(ct)
+			okk = d.runPublicKeySwitch(d.maybeCoeffDomain(ct))
 		case 3:
 			okk = sc.runE2S(d, ct)
 		case 4:
